@@ -43,7 +43,10 @@ ASSUMPTIONS = [
     'Allocation.utilization_queue is observed with the free capacity of an '
     'empty partition (zeros), Cell.schedule with the 20/20/20 server',
     'menus are integers with no zero demand dimension and non-negative rank '
-    'adjustments (DESIGN 5/C06 X)',
+    'adjustments (DESIGN 5/C06 X); rank and rank adjustment are independent '
+    '(both 0..100 in etc/schema/common.json), so menus NB1 / NB and the '
+    'Loader allocation t3 have rank adjustment > rank: the boosted rank '
+    '"rank minus rank adjustment" is then negative and sorts before rank 0',
     'loader slice: the backend is an in-memory object with get / get_default '
     '/ list; servers are attached to the Loader cell by the harness',
     're-prioritisation slice: first-come is the order of the submit events; '
@@ -59,7 +62,9 @@ MUST_FIRE = (
     'running_instance_beyond_cap', 'priority0_shares_rank',
     'two_or_more_ranks', 'allocation_with_2plus_instances',
     'pending_arrived_before_running_same_priority',
-    'allocations_interleaved', 'fresh_world_cross_checks')
+    'allocations_interleaved', 'fresh_world_cross_checks',
+    'within_reservation_negative_boosted_rank',
+    'negative_boosted_rank_competes_up_to_rank_0')
 
 
 # Three written-out cases shown first in the evidence samples (they are run on
